@@ -388,7 +388,11 @@ def bfs(prog, alphabet, depth, mode, max_states=None):
         viol = {}
         runs = transitions = 0
         nontrivial = 0
-        r0 = _Run(prog, mode)
+        try:
+            r0 = _Run(prog, mode)
+        except Exception as e:   # noqa
+            return dict(states=1, transitions=1, runs=1, depth=0, exhausted=True, frontier_empty=True, nontrivial=0,
+                        violations=[("exception", _first_node(prog), "construction raised %s: %s" % (type(e).__name__, str(e)[:120]), ())])
         seen.add(r0.key())
         r0.close()
         reached = 0
@@ -397,7 +401,11 @@ def bfs(prog, alphabet, depth, mode, max_states=None):
             nxt = []
             for hist in frontier:
                 for op in alphabet:
-                    run = _Run(prog, mode)
+                    try:
+                        run = _Run(prog, mode)
+                    except Exception as e:   # noqa: building the pipeline itself failed
+                        viol.setdefault(("exception", "construct"), ("exception", _first_node(prog), "construction raised %s: %s" % (type(e).__name__, str(e)[:120]), hist + (op,)))
+                        continue
                     bad = False
                     for h in hist:
                         if run.apply(h, False) is not None:
@@ -440,6 +448,13 @@ def bfs(prog, alphabet, depth, mode, max_states=None):
                     frontier_empty=not frontier, nontrivial=nontrivial, violations=list(viol.values()))
     finally:
         logging.disable(logging.NOTSET)
+
+
+def _first_node(prog):
+    for item in prog:
+        if item[0] == "node":
+            return item[1]
+    return prog[0][1]
 
 
 def replay_history(prog, hist, mode):
